@@ -27,6 +27,13 @@ mod validated_isograph_schema;
 mod variable_context;
 mod visit_selection_set;
 
+/// Verification hooks (only with `--cfg kani`, which `cargo kani` and the verification
+/// drivers set explicitly).
+#[cfg(kani)]
+pub mod verif_hooks {
+    pub use crate::validate_argument_types::verif_variable_type_satisfies_argument_type as variable_type_satisfies_argument_type;
+}
+
 pub use accessible_client_selectables_iterator::*;
 pub use client_schema::*;
 pub use client_selectables::*;
